@@ -155,7 +155,8 @@ def run_checks(ctx):
                             "a write touched other packet bytes", case, None)
                 cases.append(case); impl.append(out[p:p + n].hex() if out else str(r0))
             # constants (inside the format's range, as struct requires)
-            c = wrap(fmt, rng.choice([0, 1, -1, 0x12, 0x1234, 0x12345678, -0x8000, 0x7fffffff, -0x80000000, 0x123456789abcdef0, rng.getrandbits(64)]))
+            c = wrap(fmt, rng.choice([0, 1, -1, 0x12, 0x1234, 0x12345678, -0x8000, 0x7fffffff, -0x80000000, 0x80000000, 0xffffffff, 0xdeadbeef,
+                                       0x100000000, 0x123456789abcdef0, rng.getrandbits(32), rng.getrandbits(64)]))
             code = build(fmt, "writeconst", p, c)
             if isinstance(code, str):
                 ctx.require(False, "generator refused an in-range constant", {"fmt": fmt, "const": c}, code)
